@@ -230,11 +230,13 @@ func runSCIONServer(ctx context.Context, log *slog.Logger, mtrcs *scionServerMet
 
 		srcAddr, ok := netip.AddrFromSlice(scionLayer.RawSrcAddr)
 		if !ok {
-			panic("unexpected IP address byte slice")
+			log.LogAttrs(ctx, slog.LevelInfo, "failed to decode packet", slog.String("cause", "unexpected source address"))
+			continue
 		}
 		dstAddr, ok := netip.AddrFromSlice(scionLayer.RawDstAddr)
 		if !ok {
-			panic("unexpected IP address byte slice")
+			log.LogAttrs(ctx, slog.LevelInfo, "failed to decode packet", slog.String("cause", "unexpected destination address"))
+			continue
 		}
 
 		if int(udpLayer.DstPort) != localHostPort {
